@@ -15,7 +15,9 @@
 EXTENDS Naturals, Sequences, FiniteSets, TLC
 CONSTANTS Procs,        \* one-shot callers
           OpSet,        \* the calls a caller may make (records [op, arg]); the trace spec binds them from the log instead
-          MaxCycles
+          MaxCycles,
+          Defects       \* {} = the repaired tree; "lateAdd": the add task of AddRemoteCandidate lands whatever happened since the call
+                        \* (a candidate handed over before a Restart appears in the session the Restart began; repaired by 3ea211f)
 VARIABLES pc,        \* pc[p]: "idle" | "called" | "mid" (Start between its two tasks) | "ret" | "done"
           op,        \* op[p]: the call
           res,       \* res[p]: its result
@@ -23,67 +25,69 @@ VARIABLES pc,        \* pc[p]: "idle" | "called" | "mid" (Start between its two 
           lcred, rcred,                     \* credential ids; rcred = "" when unset
           gstate,                           \* "new" | "gathering" | "complete"
           cyc,                              \* cyc[k]: "spawned" | "begun" | "ended" | "cancelled" for k in 1..ncyc
-          remotes, pendAdd,                 \* remote candidates present / handed to AddRemoteCandidate and not yet added
+          remotes, pendAdd,                 \* remote candidates present / handed to AddRemoteCandidate and not yet added: <<id, restarts at the call>>
+          restarts,                         \* number of Restarts that have taken effect
           conn,                             \* connection state: "New" | "Checking" | "Closed"
           handler                           \* an OnCandidate handler is registered
-vars == <<pc, op, res, closed, started, role, startMu, lcred, rcred, gstate, cyc, remotes, pendAdd, conn, handler>>
+vars == <<pc, op, res, closed, started, role, startMu, lcred, rcred, gstate, cyc, remotes, pendAdd, conn, handler, restarts>>
 NoOp == [op |-> "none", arg |-> ""]
 Init == /\ pc = [p \in Procs |-> "idle"] /\ op = [p \in Procs |-> NoOp] /\ res = [p \in Procs |-> "none"]
         /\ closed = FALSE /\ started = FALSE /\ role = "none" /\ startMu = "free"
-        /\ lcred = "c0" /\ rcred = "" /\ gstate = "new" /\ cyc = <<>> /\ remotes = {} /\ pendAdd = {} /\ conn = "New" /\ handler \in BOOLEAN
+        /\ lcred = "c0" /\ rcred = "" /\ gstate = "new" /\ cyc = <<>> /\ remotes = {} /\ pendAdd = {} /\ conn = "New" /\ handler \in BOOLEAN /\ restarts = 0
 
 \* ---- invocation and return (observable)
 Call(p, o) == /\ pc[p] = "idle" /\ pc' = [pc EXCEPT ![p] = "called"] /\ op' = [op EXCEPT ![p] = o]
-              /\ UNCHANGED <<res, closed, started, role, startMu, lcred, rcred, gstate, cyc, remotes, pendAdd, conn, handler>>
+              /\ UNCHANGED <<res, closed, started, role, startMu, lcred, rcred, gstate, cyc, remotes, pendAdd, conn, handler, restarts>>
 Return(p) == /\ pc[p] = "ret" /\ pc' = [pc EXCEPT ![p] = "done"]
-             /\ UNCHANGED <<op, res, closed, started, role, startMu, lcred, rcred, gstate, cyc, remotes, pendAdd, conn, handler>>
+             /\ UNCHANGED <<op, res, closed, started, role, startMu, lcred, rcred, gstate, cyc, remotes, pendAdd, conn, handler, restarts>>
 
 \* ---- the atomic step of each call
 Fin(p, r) == pc' = [pc EXCEPT ![p] = "ret"] /\ res' = [res EXCEPT ![p] = r]
 CancelAll(c) == [k \in DOMAIN c |-> IF c[k] \in {"spawned", "begun"} THEN "cancelled" ELSE c[k]]
 \* argument forms: a credential id, "" (empty ufrag or password), "short" (local credentials with too few bits)
 DoRestart(p) == LET a == op[p].arg IN
-  IF a = "short" THEN Fin(p, "invalid") /\ UNCHANGED <<closed, started, role, startMu, lcred, rcred, gstate, cyc, remotes, pendAdd, conn, handler>>
-  ELSE IF closed THEN Fin(p, "closed") /\ UNCHANGED <<closed, started, role, startMu, lcred, rcred, gstate, cyc, remotes, pendAdd, conn, handler>>
+  IF a = "short" THEN Fin(p, "invalid") /\ UNCHANGED <<closed, started, role, startMu, lcred, rcred, gstate, cyc, remotes, pendAdd, conn, handler, restarts>>
+  ELSE IF closed THEN Fin(p, "closed") /\ UNCHANGED <<closed, started, role, startMu, lcred, rcred, gstate, cyc, remotes, pendAdd, conn, handler, restarts>>
   ELSE /\ Fin(p, "ok") /\ lcred' = a /\ rcred' = "" /\ gstate' = "new" /\ cyc' = CancelAll(cyc) /\ remotes' = {}
        /\ conn' = (IF conn = "New" THEN "New" ELSE "Checking")
+       /\ restarts' = restarts + 1
        /\ UNCHANGED <<closed, started, role, startMu, pendAdd, handler>>
 DoSetRemote(p) == LET a == op[p].arg IN
-  IF a = "" THEN Fin(p, "empty") /\ UNCHANGED <<closed, started, role, startMu, lcred, rcred, gstate, cyc, remotes, pendAdd, conn, handler>>
-  ELSE IF closed THEN Fin(p, "closed") /\ UNCHANGED <<closed, started, role, startMu, lcred, rcred, gstate, cyc, remotes, pendAdd, conn, handler>>
-  ELSE Fin(p, "ok") /\ rcred' = a /\ UNCHANGED <<closed, started, role, startMu, lcred, gstate, cyc, remotes, pendAdd, conn, handler>>
+  IF a = "" THEN Fin(p, "empty") /\ UNCHANGED <<closed, started, role, startMu, lcred, rcred, gstate, cyc, remotes, pendAdd, conn, handler, restarts>>
+  ELSE IF closed THEN Fin(p, "closed") /\ UNCHANGED <<closed, started, role, startMu, lcred, rcred, gstate, cyc, remotes, pendAdd, conn, handler, restarts>>
+  ELSE Fin(p, "ok") /\ rcred' = a /\ UNCHANGED <<closed, started, role, startMu, lcred, gstate, cyc, remotes, pendAdd, conn, handler, restarts>>
 DoGet(p, val) == /\ Fin(p, IF closed THEN "closed" ELSE val)
-                 /\ UNCHANGED <<closed, started, role, startMu, lcred, rcred, gstate, cyc, remotes, pendAdd, conn, handler>>
+                 /\ UNCHANGED <<closed, started, role, startMu, lcred, rcred, gstate, cyc, remotes, pendAdd, conn, handler, restarts>>
 DoGather(p) ==
-  IF closed THEN Fin(p, "closed") /\ UNCHANGED <<closed, started, role, startMu, lcred, rcred, gstate, cyc, remotes, pendAdd, conn, handler>>
-  ELSE IF gstate # "new" THEN Fin(p, "multi") /\ UNCHANGED <<closed, started, role, startMu, lcred, rcred, gstate, cyc, remotes, pendAdd, conn, handler>>
-  ELSE IF ~handler THEN Fin(p, "nohandler") /\ UNCHANGED <<closed, started, role, startMu, lcred, rcred, gstate, cyc, remotes, pendAdd, conn, handler>>
+  IF closed THEN Fin(p, "closed") /\ UNCHANGED <<closed, started, role, startMu, lcred, rcred, gstate, cyc, remotes, pendAdd, conn, handler, restarts>>
+  ELSE IF gstate # "new" THEN Fin(p, "multi") /\ UNCHANGED <<closed, started, role, startMu, lcred, rcred, gstate, cyc, remotes, pendAdd, conn, handler, restarts>>
+  ELSE IF ~handler THEN Fin(p, "nohandler") /\ UNCHANGED <<closed, started, role, startMu, lcred, rcred, gstate, cyc, remotes, pendAdd, conn, handler, restarts>>
   ELSE /\ Len(cyc) < MaxCycles /\ Fin(p, "ok") /\ cyc' = Append(CancelAll(cyc), "spawned")     \* a new cycle cancels the previous one
-       /\ UNCHANGED <<closed, started, role, startMu, lcred, rcred, gstate, remotes, pendAdd, conn, handler>>
-DoAddRemote(p) == /\ Fin(p, "ok") /\ pendAdd' = pendAdd \cup {op[p].arg}
-                  /\ UNCHANGED <<closed, started, role, startMu, lcred, rcred, gstate, cyc, remotes, conn, handler>>
+       /\ UNCHANGED <<closed, started, role, startMu, lcred, rcred, gstate, remotes, pendAdd, conn, handler, restarts>>
+DoAddRemote(p) == /\ Fin(p, "ok") /\ pendAdd' = pendAdd \cup {<<op[p].arg, restarts>>}
+                  /\ UNCHANGED <<closed, started, role, startMu, lcred, rcred, gstate, cyc, remotes, conn, handler, restarts>>
 DoClose(p) == /\ Fin(p, "ok") /\ closed' = TRUE /\ conn' = "Closed" /\ cyc' = CancelAll(cyc)
-              /\ UNCHANGED <<started, role, startMu, lcred, rcred, gstate, remotes, pendAdd, handler>>
+              /\ UNCHANGED <<started, role, startMu, lcred, rcred, gstate, remotes, pendAdd, handler, restarts>>
 \* StartDial / StartAccept begin by asking whether the loop is closed (before the mutex): a closed agent reports so whatever else holds
 DoStart0(p) == /\ closed /\ Fin(p, "closed")
-               /\ UNCHANGED <<closed, started, role, startMu, lcred, rcred, gstate, cyc, remotes, pendAdd, conn, handler>>
+               /\ UNCHANGED <<closed, started, role, startMu, lcred, rcred, gstate, cyc, remotes, pendAdd, conn, handler, restarts>>
 \* first task (under the Start mutex): refuse a second start, set the remote credentials
 DoStart1(p) == /\ startMu = "free"
   /\ LET a == op[p].arg IN
-     IF started THEN Fin(p, "multi") /\ UNCHANGED <<closed, started, role, startMu, lcred, rcred, gstate, cyc, remotes, pendAdd, conn, handler>>
-     ELSE IF a = "" THEN Fin(p, "empty") /\ UNCHANGED <<closed, started, role, startMu, lcred, rcred, gstate, cyc, remotes, pendAdd, conn, handler>>
-     ELSE IF closed THEN Fin(p, "closed") /\ UNCHANGED <<closed, started, role, startMu, lcred, rcred, gstate, cyc, remotes, pendAdd, conn, handler>>
+     IF started THEN Fin(p, "multi") /\ UNCHANGED <<closed, started, role, startMu, lcred, rcred, gstate, cyc, remotes, pendAdd, conn, handler, restarts>>
+     ELSE IF a = "" THEN Fin(p, "empty") /\ UNCHANGED <<closed, started, role, startMu, lcred, rcred, gstate, cyc, remotes, pendAdd, conn, handler, restarts>>
+     ELSE IF closed THEN Fin(p, "closed") /\ UNCHANGED <<closed, started, role, startMu, lcred, rcred, gstate, cyc, remotes, pendAdd, conn, handler, restarts>>
      ELSE /\ pc' = [pc EXCEPT ![p] = "mid"] /\ rcred' = a /\ startMu' = p
-          /\ UNCHANGED <<res, closed, started, role, lcred, gstate, cyc, remotes, pendAdd, conn, handler>>
+          /\ UNCHANGED <<res, closed, started, role, lcred, gstate, cyc, remotes, pendAdd, conn, handler, restarts>>
 \* second task: the start proper
 DoStart2(p) == /\ pc[p] = "mid" /\ startMu' = "free"
-  /\ IF closed THEN Fin(p, "closed") /\ UNCHANGED <<closed, started, role, lcred, rcred, gstate, cyc, remotes, pendAdd, conn, handler>>
+  /\ IF closed THEN Fin(p, "closed") /\ UNCHANGED <<closed, started, role, lcred, rcred, gstate, cyc, remotes, pendAdd, conn, handler, restarts>>
      ELSE /\ Fin(p, "ok") /\ started' = TRUE /\ role' = (IF op[p].op = "StartDial" THEN "controlling" ELSE "controlled")
           /\ rcred' = op[p].arg /\ conn' = "Checking"
-          /\ UNCHANGED <<closed, lcred, gstate, cyc, remotes, pendAdd, handler>>
+          /\ UNCHANGED <<closed, lcred, gstate, cyc, remotes, pendAdd, handler, restarts>>
 \* OnCandidate stores the handler (no task: an atomic store)
 DoSetHandler(p) == /\ Fin(p, "ok") /\ handler' = TRUE
-                   /\ UNCHANGED <<closed, started, role, startMu, lcred, rcred, gstate, cyc, remotes, pendAdd, conn>>
+                   /\ UNCHANGED <<closed, started, role, startMu, lcred, rcred, gstate, cyc, remotes, pendAdd, conn, restarts>>
 \* results are strings: the set of remote candidates (ids r1, r2) is named
 SetName(S) == CASE S = {} -> "rc:" [] S = {"r1"} -> "rc:r1" [] S = {"r2"} -> "rc:r2" [] S = {"r1", "r2"} -> "rc:r1,r2" [] OTHER -> "rc:?"
 Step(p) == /\ pc[p] = "called" /\ UNCHANGED op
@@ -102,12 +106,16 @@ Step2(p) == DoStart2(p) /\ UNCHANGED op
 
 \* ---- internal steps: the later tasks of spawned goroutines
 CycleBegin(k) == /\ k \in DOMAIN cyc /\ cyc[k] = "spawned" /\ ~closed /\ cyc' = [cyc EXCEPT ![k] = "begun"] /\ gstate' = "gathering"
-                 /\ UNCHANGED <<pc, op, res, closed, started, role, startMu, lcred, rcred, remotes, pendAdd, conn, handler>>
+                 /\ UNCHANGED <<pc, op, res, closed, started, role, startMu, lcred, rcred, remotes, pendAdd, conn, handler, restarts>>
 CycleEnd(k) == /\ k \in DOMAIN cyc /\ cyc[k] = "begun" /\ ~closed /\ cyc' = [cyc EXCEPT ![k] = "ended"] /\ gstate' = "complete"
-               /\ UNCHANGED <<pc, op, res, closed, started, role, startMu, lcred, rcred, remotes, pendAdd, conn, handler>>
-AsyncAdd(c) == /\ c \in pendAdd /\ pendAdd' = pendAdd \ {c} /\ remotes' = (IF closed THEN remotes ELSE remotes \cup {c})
-               /\ UNCHANGED <<pc, op, res, closed, started, role, startMu, lcred, rcred, gstate, cyc, conn, handler>>
+               /\ UNCHANGED <<pc, op, res, closed, started, role, startMu, lcred, rcred, remotes, pendAdd, conn, handler, restarts>>
+\* the add task: nothing once the agent is closed, nothing if a Restart has taken effect since the call
+AsyncAdd(c) == /\ c \in pendAdd /\ pendAdd' = pendAdd \ {c}
+               /\ remotes' = (IF closed \/ (c[2] # restarts /\ "lateAdd" \notin Defects) THEN remotes ELSE remotes \cup {c[1]})
+               /\ UNCHANGED <<pc, op, res, closed, started, role, startMu, lcred, rcred, gstate, cyc, conn, handler, restarts>>
 Internal == (\E k \in 1..MaxCycles : CycleBegin(k) \/ CycleEnd(k)) \/ (\E c \in pendAdd : AsyncAdd(c))
+\* Restart leaves no remote candidate of the ended session behind: whatever is present was handed over since the last Restart
+NoLateAdd == \A c \in pendAdd : c[2] <= restarts
 Next == \/ \E p \in Procs : (\E o \in OpSet : Call(p, o)) \/ Step(p) \/ Step2(p) \/ Return(p)
         \/ Internal
 Spec == Init /\ [][Next]_vars
